@@ -346,7 +346,21 @@ func ruleTrackAdd(c *Ctx) {
 							}
 							if len(gl.chain) == level {
 								if !loop.blocks[in.Block()] {
-									continue // decided before the loop
+									// decided before the loop: harmless when it only asks whether there is a delay to pass on
+									// (or more than one track); anything about the op itself (its kind, say) keeps some ops
+									// from moving the other tracks' clocks
+									if _, isZero := tr.zeroTest(g, dl); isZero {
+										continue
+									}
+									if cmp, ok := gl.v.(*ssa.BinOp); ok {
+										if call, ok := cmp.X.(*ssa.Call); ok && calleeName(&call.Call) == "builtin.len" {
+											continue
+										}
+									}
+									if dataDependsOn(gl.v, func(v ssa.Value) bool { return v == ssa.Value(op) }) {
+										extra = true
+									}
+									continue
 								}
 								if cmp, ok := gl.v.(*ssa.BinOp); ok && cmp.Op == token.LSS && cmp.Y == loop.bound {
 									continue // the loop's own bound test
